@@ -26,7 +26,7 @@
    completeness theorem of C02 over arbitrary InvD-states); it is checked on the
    implementation for every prefix. *)
 From Coq Require Import NArith List Bool.
-From AQ Require Import Chain.Store Chain.ChainSpec Chain.ChainProofs Chain.ChainWitness Chain.Crash Chain.CrashProofs.
+From AQ Require Import Chain.Store Chain.ChainSpec Chain.ChainProofs Chain.ChainWitness Chain.Crash Chain.CrashProofs Chain.ChainReopen.
 Import ListNotations.
 Local Open Scope N_scope.
 
@@ -70,8 +70,8 @@ Proof. exact open_db_head. Qed.
 Print Assumptions C04_open_head.
 
 (* (D): at EVERY crash point of EVERY import-only history over a well-formed block
-   universe, a header on disk has its body, its total difficulty and the state of
-   its root on disk *)
+   universe, a header on disk has its body, its total difficulty, the state of
+   its root and its hash->number record on disk *)
 Theorem C04_block_data_complete_every_prefix : forall (U : N -> sblock) (g : header),
   U (h_hash g) = (g, []) -> h_number g = 0 ->
   forall (d0 : disk) (ops : list op),
@@ -80,6 +80,17 @@ Theorem C04_block_data_complete_every_prefix : forall (U : N -> sblock) (g : hea
   forall k, block_data_complete (crash_disk d0 (log_of (run ops (pre_open g))) k).
 Proof. exact block_data_complete_every_prefix. Qed.
 Print Assumptions C04_block_data_complete_every_prefix.
+
+(* (D) also for histories in which the node is closed and reopened anywhere *)
+Theorem C04_block_data_complete_every_prefix_with_reopen : forall (U : N -> sblock) (g : header),
+  U (h_hash g) = (g, []) -> h_number g = 0 ->
+  forall (d0 : disk), h_hash g <> 0 -> d0 = genesis_disk g ->
+  forall ops,
+  imports_and_reopens ops ->
+  (forall b, In b (blocks_of ops) -> wf_block U b /\ h_hash (b_hdr b) <> 0) ->
+  forall k, block_data_complete (crash_disk d0 (log_of (run ops (pre_open g))) k).
+Proof. exact every_prefix_with_reopen. Qed.
+Print Assumptions C04_block_data_complete_every_prefix_with_reopen.
 
 (* non-vacuity: every crash point of a plain two-batch extension restarts on the
    last head written, with the number index naming it *)
